@@ -692,6 +692,7 @@ func (se *SpecEnv) findGhost(b T, f string) (*GhostField, string) {
 
 func (se *SpecEnv) ghostRead(g *GhostField, key string, owner T) T {
 	ty, so := se.resolveTypeIn(g.Pkg, g.Sort)
+	se.c.usedPures["ghost:"+g.Name] = true
 	if g.Mutable {
 		mk := "G:" + key
 		se.c.memSorts[mk] = "(Array " + owner.So + " " + so + ")"
@@ -833,6 +834,24 @@ func (se *SpecEnv) evalAddr(e Expr) (string, types.Type) {
 
 func (se *SpecEnv) evalLoc(e Expr) []Loc {
 	if cl, ok := e.(*ECall); ok {
+		short := cl.Fn
+		if i := strings.LastIndex(short, "."); i >= 0 {
+			short = short[i+1:]
+		}
+		if lm, ok := se.c.eng.db.LocMacros[short]; ok {
+			if len(lm.Params) != len(cl.Args) {
+				se.fail("locs %s: want %d args", lm.Name, len(lm.Params))
+			}
+			m := map[string]Expr{}
+			for i, prm := range lm.Params {
+				m[prm.Name] = cl.Args[i]
+			}
+			var out []Loc
+			for _, l := range lm.Locs {
+				out = append(out, se.evalLoc(substExpr(l, m))...)
+			}
+			return out
+		}
 		switch cl.Fn {
 		case "cells":
 			s := se.eval(cl.Args[0])
@@ -1162,6 +1181,25 @@ func (se *SpecEnv) assumeF(e Expr) string {
 
 // ---------- conjunct splitting (finer blame, smaller queries) ----------
 
+// predPortable: the body of the predicate mentions no package-level names (only its parameters,
+// ghost fields and spec functions), so it means the same when unfolded in another package.
+func predPortable(p *Pred) bool {
+	names := map[string]bool{"true": true, "false": true, "nil": true}
+	for _, prm := range p.Params {
+		names[prm.Name] = true
+	}
+	ok := true
+	walkExpr(p.Body, func(x Expr) {
+		if id, isId := x.(*EIdent); isId && !names[id.Name] {
+			ok = false
+		}
+		if _, isQ := x.(*EQuant); isQ {
+			ok = false
+		}
+	})
+	return ok
+}
+
 func substExpr(e Expr, m map[string]Expr) Expr {
 	switch x := e.(type) {
 	case *EIdent:
@@ -1227,7 +1265,7 @@ func (se *SpecEnv) splitConjuncts(e Expr, depth int) []Expr {
 		if i := strings.LastIndex(short, "."); i >= 0 {
 			short = short[i+1:]
 		}
-		if p, ok := se.c.eng.db.Preds[short]; ok && depth < 3 && p.Pkg == se.pkg && len(p.Params) == len(x.Args) {
+		if p, ok := se.c.eng.db.Preds[short]; ok && depth < 3 && (p.Pkg == se.pkg || predPortable(p)) && len(p.Params) == len(x.Args) {
 			m := map[string]Expr{}
 			for i, prm := range p.Params {
 				m[prm.Name] = x.Args[i]
